@@ -1,7 +1,7 @@
 """C12 - handle registry (DESIGN 2, C12)."""
 from .. import terms
 from .. import catalogue as cat
-from ..ast import strip, flat_stmts, calls, nodes, is_param, is_local, is_this_member, full_container_loop, assigned_in, show
+from ..ast import strip, flat_stmts, calls, nodes, is_param, is_local, is_this_member, full_container_loop, assigned_in, show, whole_container_traversal
 from ..ir import walk
 from ..report import AnalysisBroken
 from .. import ownership as own
@@ -10,7 +10,7 @@ LEVEL = 'other'
 
 
 def run(ctx, prog):
-    ctx.rule('C12.H1', '_master_map is modified only in init_mms and the destructor, _master_pointer only in init_mms / select_mms (and the constructor); '
+    ctx.rule('C12.H1', 'with every callee inlined, the registry map can be modified only through masa_init and the selection pointer only through masa_init / masa_select_mms; '
              'select_mms assigns the pointer the mapped value of exactly the looked-up key')
     ctx.rule('C12.H2', 'the object init_mms installs is an element of the vector that get_list_mms filled in the same call; every element is a new-expression; no candidate is static, cached or shared')
     ctx.rule('C12.H3', 'every address passed to register_var/register_vec is a non-static data member (or sub-object member) of the object under construction; solution classes have no mutable static data')
@@ -34,36 +34,46 @@ def run(ctx, prog):
                        scalar, need, scalar, scalar, users or 'its callers'))
         if missing:
             continue
-        # ---- H1
+        # ---- H1 / H4: every API entry point of this precision is evaluated with its callees inlined (registry accessor, registry
+        # methods, helpers); what counts is which registry object it touches and which of its two members it can write
+        regs = {}
+        for sc2 in cat.SCALARS:
+            acc = [f for f in prog.functions if f.n == 'masa_master' and f.q.endswith('masa_master<%s>' % sc2)]
+            ctx.require(len(acc) == 1, 'masa_master<%s> not found' % sc2)
+            E0 = terms.Evaluator(prog, scalar=sc2)
+            o0 = E0.run(acc[0])
+            ctx.require(len(o0) == 1 and o0[0].ret is not None and o0[0].ret[0] == 'sym' and o0[0].ret[1].startswith('global:'), 'masa_master<%s>() does not return a global object' % sc2)
+            regs[sc2] = o0[0].ret[1]
+        own_reg = regs[scalar]
         writers = {'_master_map': set(), '_master_pointer': set()}
+        n_api = 0
         for f in prog.functions:
-            E = None
-            for n in walk(f.body):
-                if n.get('k') == 'member' and n['n'] in writers and n.get('rec') == rq:
-                    E = True
-            if not E:
+            if not (f.q.startswith('MASA::') and not f.get('rec') and f.scalar == scalar):
                 continue
-            ev = terms.Evaluator(prog, scalar=scalar, inline=False, noreturn=('masa_exit',))
-            outs = ev.run(f)
-            for o in outs + ev.trace.exit_paths:
-                def visit(evs):
-                    for e in evs:
-                        if e[0] == 'write' and e[1] in writers:
-                            writers[e[1]].add(f.n)
-                        if e[0] == 'loop':
-                            for kind, conds, sub in e[1][1]:
-                                visit(sub)
-                visit(o.events)
-            if f.get('ctor'):
-                for i in f.inits:
-                    if i.get('member') in writers:
-                        writers[i['member']].add(f.n)
-        okm = writers['_master_map'] <= {'init_mms', '~MasterMS', 'MasterMS'}
-        okp = writers['_master_pointer'] <= {'init_mms', 'select_mms', 'MasterMS'}
-        ctx.ob('C12.H1', 'map-writers|' + sc, okm and 'init_mms' in writers['_master_map'], prog.records[rq]['l'],
-               '_master_map is modified by %s' % sorted(writers['_master_map']), sample='_master_map written by %s' % sorted(writers['_master_map']))
-        ctx.ob('C12.H1', 'pointer-writers|' + sc, okp and {'init_mms', 'select_mms'} <= writers['_master_pointer'], prog.records[rq]['l'],
-               '_master_pointer is written by %s' % sorted(writers['_master_pointer']), sample='_master_pointer written by %s' % sorted(writers['_master_pointer']))
+            ev = terms.Evaluator(prog, scalar=scalar, noreturn=('masa_exit',))
+            try:
+                ev.run(f)
+            except RecursionError:
+                raise AnalysisBroken('%s: too deep' % f.q)
+            touched = set('global:' + q for q in ev.trace.globals_read if 'global:' + q in regs.values())
+            for pth in ev.trace.writes:
+                for fld in writers:
+                    if pth.endswith('.' + fld) and pth[:-len(fld) - 1] in regs.values():
+                        touched.add(pth[:-len(fld) - 1])
+                        writers[fld].add(f.n)
+            if not touched:
+                continue
+            n_api += 1
+            wrong = sorted(t for t in touched if t != own_reg)
+            ctx.ob('C12.H4', '%s|%s' % (f.n, f.sig), not wrong, f.where, '%s<%s> operates on the registry %s' % (f.n, scalar, [w.split('::')[-1] for w in wrong]),
+                   sample='%s -> %s' % (f.n, own_reg.split('::')[-1]), nontrivial=not f.n.startswith('masa_eval_'))
+        ctx.floor('api_functions_using_registry<%s>' % scalar, n_api, 100)
+        okm = writers['_master_map'] <= {'masa_init'}
+        okp = writers['_master_pointer'] <= {'masa_init', 'masa_select_mms'}
+        ctx.ob('C12.H1', 'map-writers|' + sc, okm and 'masa_init' in writers['_master_map'], prog.records[rq]['l'],
+               'the registry map can be modified through %s' % sorted(writers['_master_map']), sample='registry map modified only through %s' % sorted(writers['_master_map']))
+        ctx.ob('C12.H1', 'pointer-writers|' + sc, okp and {'masa_init', 'masa_select_mms'} <= writers['_master_pointer'], prog.records[rq]['l'],
+               'the selection pointer can be written through %s' % sorted(writers['_master_pointer']), sample='selection pointer written only through %s' % sorted(writers['_master_pointer']))
         # select_mms: every non-fatal path leaves the pointer on find(parameter)->second, guarded by the handle being registered
         sm = meths['select_mms']
         sp, ngood = own.check_select(prog, sm, scalar)
@@ -106,28 +116,12 @@ def run(ctx, prog):
             ctx.ob('C12.H3', '%s|%s' % (short, sc), not bad, ctor.where, '%s registers storage that is not a member of the instance: %s' % (short, bad[:2]),
                    sample='%s: all registered addresses are members of *this' % short, nontrivial=short not in cat.FIXTURES[1:])
         ctx.floor('registered_addresses<%s>' % scalar, n_addr, 700)
-        # ---- H4
-        n_api = 0
-        for f in prog.functions:
-            if not (f.q.startswith('MASA::') and not f.get('rec') and f.scalar == scalar):
-                continue
-            mm = [c for c in calls(f.body, name='masa_master')]
-            if not mm:
-                continue
-            n_api += 1
-            wrong = [c['q'] for c in mm if not c['q'].endswith('masa_master<%s>' % scalar)]
-            ctx.ob('C12.H4', '%s|%s' % (f.n, f.sig), not wrong, f.where, '%s<%s> uses registry %s' % (f.n, scalar, wrong), sample='%s -> masa_master<%s>()' % (f.n, scalar),
-                   nontrivial=not f.n.startswith('masa_eval_'))
-        ctx.floor('api_functions_using_registry<%s>' % scalar, n_api, 125)
         # ---- H5
         lm = meths['list_mms']
-        full = None
-        for l in nodes(lm.body, 'for'):
-            it = full_container_loop(l, lambda o: is_this_member(o, '_master_map'))
-            if it is not None and not assigned_in(l['body'], it):
-                full = l
+        full, loop_, it_ = whole_container_traversal(lm.body, lambda o: o is not None and is_this_member(o, '_master_map'))
         sizes = [c for c in calls(lm.body, name='size')]
-        ctx.ob('C12.H5', 'list_mms|' + sc, full is not None and bool(sizes), lm.where, 'list_mms does not iterate the whole of _master_map and print its size',
+        ctx.ob('C12.H5', 'list_mms|' + sc, (full and bool(sizes)) if full is not None else None, lm.where,
+               'list_mms does not iterate the whole of _master_map and print its size' if full is not None else 'list_mms walks the registry by an idiom outside the recognised ones: not decided',
                sample='for it in _master_map: print it->first, name; size()')
         B = cat.BASE % scalar
         for fn_name, member in (('return_name', 'mmsname'), ('return_dim', 'dimension')):
